@@ -12,6 +12,7 @@ cd $WT
 DEMO=$(ls $C/zz_seeded_*_test.go | head -1)
 # intended directory: from NOTES.md (first path mentioning the demo file), else the package clause + touched dir
 REL=$(grep -oE '[A-Za-z0-9_/.-]*zz_seeded_[A-Za-z0-9]+_test\.go' $C/NOTES.md | grep / | grep -v seeded_out | sed 's#^/tmp/wt-[A-Za-z0-9]*/##' | head -1)
+if [ -z "$REL" ] && grep -qi "repository root" $C/NOTES.md; then REL=$(basename $DEMO); fi
 if [ -z "$REL" ]; then echo "cannot determine demo path"; exit 2; fi
 DIR=$(dirname $REL)
 cp $DEMO $WT/$DIR/
